@@ -55,7 +55,8 @@ let rec read_node () : node =
   | ["N"; tag; text; nk] ->
       let nk = int_of_string nk in
       let kids = List.init nk (fun _ -> ()) |> List.map (fun () -> read_node ()) in
-      Node (coq_string_of (unhex tag), (if text = "-" then None else Some (coq_string_of (unhex text))), kids)
+      Node (coq_string_of (if tag = "-" then "" else unhex tag),
+            (if text = "-" then None else if text = "=" then Some EmptyString else Some (coq_string_of (unhex text))), kids)
   | _ -> failwith ("bad node line: " ^ l)
 let read_nodes () : node list =
   let n = int_of_string (next_line ()) in
@@ -77,7 +78,13 @@ let rec canon (v : value) : Stdlib.String.t =
   match v with
   | VInt z -> "i" ^ string_of_z z
   | VF32 b -> "f" ^ f32_canon b
-  | VF64 b -> "d" ^ hex_of_bytes b
+  | VF64 b ->
+      (match List.map int_of_byte b with
+       | [a0; a1; a2; a3; a4; a5; a6; a7] ->
+           let exp = ((a7 land 0x7f) lsl 4) lor (a6 lsr 4) in
+           let man_nz = (a6 land 0x0f) <> 0 || a5 <> 0 || a4 <> 0 || a3 <> 0 || a2 <> 0 || a1 <> 0 || a0 <> 0 in
+           if exp = 0x7ff && man_nz then "dnan" else "d" ^ hex_of_bytes b
+       | _ -> "d" ^ hex_of_bytes b)
   | VVec b ->
       let rec chunks l = match l with a :: b :: c :: d :: r -> f32_canon [a; b; c; d] :: chunks r | _ -> [] in
       "v(" ^ String.concat "," (chunks b) ^ ")"
@@ -152,6 +159,49 @@ let parse_type (s : Stdlib.String.t) : dtype =
     | _ -> failwith ("type syntax: " ^ id ^ " in " ^ s) in
   let t = ty () in if !pos <> n then failwith ("type syntax: trailing input in " ^ s); t
 
+
+(* ---------- value syntax = the canonical output form, parsed under the guidance of the type ---------- *)
+let z_of_string (s : Stdlib.String.t) : z =
+  (* decimal, optional '-' ; values may exceed 63 bits *)
+  let neg = String.length s > 0 && s.[0] = '-' in
+  let digits = if neg then String.sub s 1 (String.length s - 1) else s in
+  let acc = ref Z0 in
+  let ten = Zpos (XO (XI (XO XH))) in
+  String.iter (fun c -> acc := Z.add (Z.mul !acc ten) (match Char.code c - 48 with 0 -> Z0 | d -> Zpos (pos_of_int d))) digits;
+  if neg then Z.opp !acc else !acc
+
+let parse_value (t : dtype) (s : Stdlib.String.t) : value =
+  let pos = ref 0 in
+  let n = String.length s in
+  let peek () = if !pos < n then s.[!pos] else '\000' in
+  let eat c = if peek () = c then incr pos else failwith (Printf.sprintf "value syntax: expected %c at %d in %s" c !pos s) in
+  let take p = let st = !pos in while !pos < n && p s.[!pos] do incr pos done; String.sub s st (!pos - st) in
+  let hexs () = take (function '0'..'9' | 'a'..'f' -> true | _ -> false) in
+  let bytes_hex () = bytes_of_string (unhex (hexs ())) in
+  let rec strip = function TUser t -> strip t | t -> t in
+  let rec v (t : dtype) : value =
+    let t = strip t in
+    if peek () = 'n' && (match t with TDict _ -> true | _ -> false) then (incr pos; VNone) else
+    match t with
+    | TUInt _ | TInt _ -> eat 'i'; VInt (z_of_string (take (function '0'..'9' | '-' -> true | _ -> false)))
+    | TF32 -> eat 'f'; VF32 (bytes_hex ())
+    | TF64 -> eat 'd'; VF64 (bytes_hex ())
+    | TVec _ -> eat 'v'; eat '('; let acc = ref [] in
+        while peek () <> ')' do acc := !acc @ bytes_hex (); if peek () = ',' then incr pos done; eat ')'; VVec !acc
+    | TString -> if peek () = 's' then (incr pos; VStr (bytes_hex ())) else (eat 'b'; VBytes (bytes_hex ()))
+    | TBlob | TPython -> eat 'b'; VBytes (bytes_hex ())
+    | TMailbox -> eat 'm'; let ip = bytes_hex () in eat ':'; let p = take (function '0'..'9' -> true | _ -> false) in
+        VMail (ip, n_of_int (int_of_string p))
+    | TArray (e, _) -> eat '['; let acc = ref [] in
+        while peek () <> ']' do acc := v e :: !acc; if peek () = ',' then incr pos done; eat ']'; VList (e, List.rev !acc)
+    | TDict (fs, _) -> eat '{'; let acc = ref [] in
+        List.iter (fun (k, ft) ->
+          let name = take (fun c -> c <> '=') in eat '=';
+          ignore name; acc := (k, v ft) :: !acc; if peek () = ',' then incr pos) fs;
+        eat '}'; VDict (fs, List.rev !acc)
+    | TUser _ -> failwith "unreachable" in
+  let r = v t in if !pos <> n then failwith ("value syntax: trailing input in " ^ s); r
+
 let split_ws l = List.filter (fun x -> x <> "") (String.split_on_char ' ' l)
 let iter_lines f = try while true do f (input_line stdin) done with End_of_file -> ()
 
@@ -214,19 +264,43 @@ let cmd_world () =
       let (w, er) =
         if mode = "strict" then run_strict st bs
         else if mode = "lenient" then run_lenient st bs
-        else begin (* "stream": same as lenient, trace printed incrementally *)
+        else begin (* "stream": same as lenient, trace printed incrementally; L lines report payload consumption *)
           let (ps, t) = frames bs in
           let w = List.fold_left (fun w p ->
               let (w', _) = step st w p in
-              dump_trace w'; clear_trace w') empty_world ps in
+              dump_trace w';
+              (match (if st.s_game = Wowp then None else class_of st p) with
+               | Some EntityMethod ->
+                   (match method_payload_rest st w p.pk_payload with
+                    | Ok (k, Some n) -> Printf.printf "L %s %d\n" (ocaml_string_of k) (int_of_nat n)
+                    | Ok (k, None) -> Printf.printf "L %s ERR\n" (ocaml_string_of k)
+                    | Err _ -> ())
+               | Some EntityProperty ->
+                   (match prop_payload_rest st w p.pk_payload with
+                    | Ok (k, Some n) -> Printf.printf "LP %s %d\n" (ocaml_string_of k) (int_of_nat n)
+                    | Ok (k, None) -> Printf.printf "LP %s ERR\n" (ocaml_string_of k)
+                    | Err _ -> ())
+               | _ -> ());
+              clear_trace w') empty_world ps in
           (w, (match t with Clean -> None | HeaderCut -> Some EStruct | OutOfFuel -> Some EFuel))
         end in
       (match er with Some e -> Printf.printf "RAISED %s\n" (err_name e) | None -> print_string "DONE\n");
       dump_world w
 
 
+(* encode : lines "<hdr> <type> <value>" -> "<hex|->"  (the SPEC encoder wire_encode) *)
+let cmd_encode () =
+  iter_lines (fun l ->
+    match split_ws l with
+    | [hdr; t; vs] ->
+        let t = parse_type t in
+        let h = hex_of_bytes (wire_encode (nat_of_int (int_of_string hdr)) t (parse_value t vs)) in
+        print_endline (if h = "" then "-" else h)
+    | _ -> failwith ("encode: bad line " ^ l))
+
 let () =
   match Sys.argv.(1) with
+  | "encode" -> cmd_encode ()
   | "bits" -> cmd_bits ()
   | "bitread" -> cmd_bitread ()
   | "decode" -> cmd_decode ()
